@@ -23,7 +23,7 @@ RULE = ('(a) collector-produced snapshots of generated frames (friendly + hostil
         'frame types); (b) synthetic snapshots: text from ascii / non-BMP / control / lone-surrogate classes in every '
         'string field, tables of 0..5000 entries, children with modifiers and original names, error and good watches '
         'of all four sources, optional fields unset, attribute and resource values of str/bool/int/float/bytes/'
-        'sequence kinds; (c) auth none / basic / basic without password / custom provider, metadata on first and '
+        'sequence kinds, int subclasses; (c) auth none / basic (credentials over the whole base64 alphabet) / basic without password / custom provider (repeated metadata keys), metadata on first and '
         'later poll and send calls; non-trivial = message compared field by field; distinct by canonical case')
 ASSUMPTIONS = ['integers in attributes stay within int64', 'code points that UTF-8 cannot encode may be replaced by a '
                'short placeholder; every other character must arrive unchanged']
